@@ -327,6 +327,55 @@ def rule_r4(ctx):
     return rr
 
 
+def rule_r5(ctx):
+    """The value of a user STATEMENT is never asked for its truth value.  Python tests the truth of
+    `If.test` / `While.test` only; `bool(x)` calls the user's `__bool__`/`__len__`, which may print,
+    raise (numpy arrays, pandas objects) or be expensive.  In a converter-built `a or b`, `a and b`,
+    `not a`, `a if t else b` every operand but the last (resp. the test) is truth-tested.  The
+    expression wrapper returns a block of ONE statement as that statement's own expression, so a
+    wrapped block in such a position has the user's value tested."""
+    from ..semwalk import iter_tnodes
+    from ..vals import PList, TNode
+
+    rr = RuleResult("C07-R5", "no converter-built and/or/not/if-else tests the truth of a lowered statement's value")
+    rr.exhaustive = True
+    rr.floor = 10
+    T = ctx.tmpl
+    seen = set()
+
+    def is_wrapped_block(v):
+        return isinstance(v, TNode) and v.kind == "$Wrap"
+
+    for ci, kinds, entry in T.all_pending():
+        rr.instances += 1
+        for pr in entry.ok_paths():
+            klabel = kinds_label(pr.extra["node"].kinds)
+            for t in iter_tnodes(pr.result):
+                tested = []
+                if t.kind == "BoolOp":
+                    vals = t.fields.get("values")
+                    items = vals.items if isinstance(vals, PList) else []
+                    tested = items[:-1]
+                elif t.kind == "IfExp":
+                    tested = [t.fields.get("test")]
+                elif t.kind == "UnaryOp" and isinstance(t.fields.get("op"), TNode) and t.fields["op"].kind == "Not":
+                    tested = [t.fields.get("operand")]
+                for v in tested:
+                    if is_wrapped_block(v):
+                        key = (klabel, t.site)
+                        if key in seen:
+                            continue
+                        seen.add(key)
+                        rr.fail(
+                            f"C07-R5|{klabel}|block-value-truth-tested",
+                            f"{ci.name}.get_result ({t.site}): a lowered block is an operand of `{t.kind}` whose truth is tested; for a block of one statement the expression wrapper hands back that statement's own value, so `bool(value)` is evaluated: `if flag: compute()` / `else: ...` with if_style=short_circuit calls `__bool__` of what compute() returns (printing / raising __bool__, `ValueError: truth value of an array is ambiguous`) [context: {short_ctx(pr, 100)}]",
+                            where=str(t.site), what=f"{klabel}|{t.site}",
+                        )
+    if not seen:
+        rr.ok("templates", sample={"rule": "C07-R5", "verdict": "no wrapped block in a truth-tested operand"})
+    return rr
+
+
 def path_events_of(t):
     from ..semwalk import events_of
 
@@ -342,4 +391,4 @@ def rule_c05_protocol(ctx):
     return [c05.rule_r1(ctx), c05.rule_r23(ctx), c05.rule_r6(ctx)]
 
 
-RULES = [("C07-R1", rule_r1), ("C07-R2", rule_r2), ("C07-R3", rule_r3), ("C07-R4", rule_r4), ("C05-protocol", rule_c05_protocol)]
+RULES = [("C07-R1", rule_r1), ("C07-R2", rule_r2), ("C07-R3", rule_r3), ("C07-R4", rule_r4), ("C07-R5", rule_r5), ("C05-protocol", rule_c05_protocol)]
